@@ -22,7 +22,7 @@ let run (id : string) (ops : string list) (out : out_channel) =
         | [sq; fl; ts; h] ->
           let f = int_of_string fl in
           Some (C10Model.Segment (z_of_int (int_of_string sq), f land 1 <> 0, f land 2 <> 0, f land 4 <> 0,
-                                  bytes_of_hex h, z_of_int (int_of_string ts)))
+                                  bytes_of_hex h, z_of_int (int_of_string ts), BinNums.Z0))  (* ghost offset: unused at run time *)
         | _ -> failwith "seg")
     | ["fot"; t] -> Some (C10Model.FlushOlderThan (z_of_int (int_of_string t)))
     | ["fall"] -> Some C10Model.FlushAll
